@@ -7,7 +7,7 @@ from . import gen
 
 E = '\x1b'
 
-AUTHORS = ['Dan Davison', 'A', 'Jörg Müller', '山田 太郎', 'x y z w', 'Thomas Otto', "O'Neil", 'a-b']
+AUTHORS = ['Dan Davison', 'A', 'Jörg Müller', '山田 太郎', 'x y z w', 'Thomas Otto', "O'Neil", 'a-b', 'Ze\u0301 Anto\u0301nio', 'ＡＢＣ']
 ZONES = ['+0000', '-0700', '+0530', '+1245', '-0330', '+0900']
 
 
@@ -218,7 +218,9 @@ def gen_combined(rng, conflict=False, nparents=2, nhunks=1, nconflicts=1, styles
             # a side's content equal to a conflict marker is inherently ambiguous: not generated
             while True:
                 t = gen.rand_text(rng, 30, allow_empty=False, tabs_ok=False)
-                if not t.startswith(('=======', '<<<<<<<', '>>>>>>>', '|||||||')):
+                if rng.random() < 0.05:
+                    t = rng.choice(['==========', '======== x', '=========================='])     # (more than seven: content, e.g. a heading's underline)
+                if not t.startswith(('<<<<<<<', '>>>>>>>', '|||||||')) and not (t == '=======' or t.startswith('======= ')):
                     return t
         nreg = max(1, nconflicts)
         for _region in range(nreg):
